@@ -21,6 +21,9 @@ pub(crate) mod verif_common {
     pub fn fixed_random_state() -> std::hash::RandomState {
         unsafe { core::mem::transmute::<[u64; 2], std::hash::RandomState>([1, 2]) }
     }
+    /// stub for <anyhow::Error as Drop>::drop: errors are leaked instead of freed (CBMC explores every candidate of the
+    /// `object_drop` vtable slot wherever an error MAY be dropped; freeing memory is irrelevant to every contract)
+    pub fn leak_anyhow(_e: &mut anyhow::Error) {}
     /// stub for alloc::fmt::format: error-message text is irrelevant to every contract
     pub fn no_format(_args: core::fmt::Arguments<'_>) -> String {
         String::new()
